@@ -627,8 +627,10 @@ class OscMessage(object):
                     param_stack.pop()
                 # TODO: Support more exotic types as described in the specification.
                 else:
-                    _logger.warning(f'Unhandled parameter type: {param}')
-                    continue
+                    # The size of its data is unknown, following arguments
+                    # can't be located.
+                    raise OscMessageParseError(
+                        f'Unhandled parameter type: {param}')
                 if param not in "[]":
                     param_stack[-1].append(val)
             if len(param_stack) != 1:
